@@ -8,7 +8,7 @@
    the remaining operations are tied by the correspondence run (three-way with std::vec::Vec) only. *)
 From Coq Require Import ZArith List Bool Lia.
 From MV Require Import Ast Eval Scalar Machine Model Policy.
-From MV.Proofs Require Import Arith Logic Prim View OpsLocal Guards Grow CapHistory Drops DrainIt Core Refine Clone Append Extend CloneSlice.
+From MV.Proofs Require Import Arith Logic Prim View OpsLocal Guards Grow CapHistory Drops DrainIt Core Refine Clone Append SplitOff Extend CloneSlice.
 Import ListNotations.
 Open Scope Z_scope.
 
@@ -244,3 +244,18 @@ Theorem C01_extend_from_slice_clones_each_element_once :
                          (forall e, e < next_elem s -> ledger s' e = ledger s e)).
 Proof. exact extend_from_slice_abs. Qed.
 Print Assumptions C01_extend_from_slice_clones_each_element_once.
+
+(* split_off(at) for 0 < at <= len (at > len is rejected: C11; at = 0 and the empty vector hand the
+   buffer over / allocate an empty one: by correspondence): self keeps the first `at` elements, the
+   new vector holds the rest, in order, in a block of its own; the ledger is untouched *)
+Theorem C01_split_off_splits_the_list :
+  forall cfg (ncap : Z -> option Z), cfg_ok cfg -> forall s v o b bl at_,
+  vec_at s v b bl -> block_ok cfg bl -> owned s bl -> v <> o ->
+  0 < at_ <= h_len bl ->
+  post (split_off cfg v o at_ s)
+    (fun _ s' => vabs cfg s' v (firstn (Z.to_nat at_) (velems bl)) /\ vabs cfg s' o (skipn (Z.to_nat at_) (velems bl)) /\
+                 only_changes s s' [] /\
+                 (forall bv blv bo blo, vec_at s' v bv blv -> vec_at s' o bo blo -> bv <> bo))
+    (fun _ => True).
+Proof. exact split_off_middle. Qed.
+Print Assumptions C01_split_off_splits_the_list.
